@@ -13,6 +13,7 @@ import (
 	"strings"
 	"sync"
 	"sync/atomic"
+	"syscall"
 	"time"
 
 	"verif/internal/core"
@@ -129,8 +130,14 @@ func C04(r *core.Run) {
 	}
 	defer md.Close()
 
+	cDone := make(chan struct{})
+	go func() {
+		defer close(cDone)
+		c04PartC(r, agentBin, md)
+	}()
 	c04PartA(r, agentBin, md)
 	c04PartB(r, serverBin)
+	<-cDone
 	r.JudgeRaces(core.ParseRaceLogs(filepath.Join(r.WorkDir, "race-")))
 	r.Finish(r.Pick(30, 600))
 }
@@ -704,4 +711,94 @@ func c04PartB(r *core.Run, serverBin string) {
 		judgeProcs(r, false, server)
 	}
 	r.Set("poller_batch_signatures", len(batchSigs))
+}
+
+// c04PartC: a re-listing proxy (it reports every unanswered ID on every poll,
+// as the App Engine proxy does) while the agent shuts down gracefully with
+// requests in flight: whatever the agent does with its last list replies, no
+// request may reach the backend twice.
+func c04PartC(r *core.Run, agentBin string, md *fakes.Metadata) {
+	type sc struct {
+		sig    syscall.Signal
+		name   string
+		n      int
+		delay  int
+		graceS int
+	}
+	scs := []sc{{syscall.SIGTERM, "TERM", 3, 1500, 3}, {syscall.SIGINT, "INT", 6, 900, 2}}
+	if !r.Quick() {
+		scs = append(scs, sc{syscall.SIGTERM, "TERM", 12, 2500, 2}, sc{syscall.SIGINT, "INT", 1, 1500, 4}, sc{syscall.SIGTERM, "TERM", 20, 600, 3})
+	}
+	var wg sync.WaitGroup
+	for si, c := range scs {
+		wg.Add(1)
+		go func(si int, c sc) {
+			defer wg.Done()
+			backend, err := newTokBackend()
+			if err != nil {
+				r.Broken(err.Error())
+				return
+			}
+			defer backend.Srv.Close()
+			px, err := fakes.NewProxy()
+			if err != nil {
+				r.Broken(err.Error())
+				return
+			}
+			defer px.Close()
+			px.Relist = true
+			px.ListWait = 50 * time.Millisecond
+			agent, err := startAgent(r, agentBin, fmt.Sprintf("agentC%d", si), md, px.URL(), backend.Srv.Addr(), fmt.Sprintf("bC%d", si), fmt.Sprintf("--graceful-shutdown-timeout=%ds", c.graceS))
+			if err != nil {
+				r.Broken(err.Error())
+				return
+			}
+			defer agent.Kill()
+			var toks []string
+			for i := 0; i < c.n; i++ {
+				tok := fmt.Sprintf("s%dC%di%d", r.Seed, si, i)
+				toks = append(toks, tok)
+				px.Enqueue(tok, tokRequest("GET", tok, 50, c.delay, "c04c.example", nil, nil), "")
+			}
+			// wait until every request is at the backend, then signal
+			deadline := time.Now().Add(20 * time.Second)
+			for time.Now().Before(deadline) {
+				seen := map[string]bool{}
+				for _, sn := range backend.Seen() {
+					seen[sn.Tok] = true
+				}
+				if len(seen) >= c.n {
+					break
+				}
+				time.Sleep(5 * time.Millisecond)
+			}
+			agent.Signal(c.sig)
+			select {
+			case <-agent.Done():
+			case <-time.After(time.Duration(c.graceS)*time.Second + 15*time.Second):
+			}
+			count := map[string]int{}
+			for _, sn := range backend.Seen() {
+				count[sn.Tok]++
+			}
+			r.Cases(fmt.Sprintf("C|relisting-proxy|graceful-shutdown|SIG%s|in-flight=%d", c.name, c.n), 1)
+			reached := 0
+			for _, tok := range toks {
+				if count[tok] >= 1 {
+					reached++
+				}
+				if count[tok] > 1 {
+					r.Violate("C04:forwarded-more-than-once:relisted-during-graceful-shutdown", fmt.Sprintf("SIG%s with %d requests in flight and a re-listing proxy: request %s reached the backend %d times", c.name, c.n, tok, count[tok]), nil, nil)
+				}
+			}
+			if reached < c.n {
+				r.Inconclusive(fmt.Sprintf("part C scenario %d: only %d of %d requests were at the backend when the signal was sent", si, reached, c.n))
+			}
+			r.Add("requests_in_flight_at_shutdown_part_c", reached)
+			for _, ex := range core.CrashMarkers(agent.LogPath) {
+				r.Violate(core.CrashSignature(ex), "agent crashed: "+ex, nil, nil)
+			}
+		}(si, c)
+	}
+	wg.Wait()
 }
